@@ -104,7 +104,7 @@ def build(unit, repo=None, out_dir=None, canary=False):
             wrap_open = e.get("impl_header", "")
         functions.append({"name": e["name"], "src": e["src"], "bytes": [s, en], "sha256": X.sha(text), "rewrites": rep,
                           "props": e["props"], "ensures": [n for n, _ in c["ensures"]], "ensures_props": e["ensures_props"],
-                          "loops": sorted(e["loops"].keys()), "text": new, "within": e.get("within"), "canary_mode": e.get("canary", "")})
+                          "loops": sorted(e["loops"].keys()), "text": new, "within": e.get("within"), "canary_mode": e.get("canary", ""), "stub": e.get("stub")})
     meta = {"unit": unit, "items": items, "functions": functions, "preamble": pre, "canary": canary}
     return meta
 
